@@ -87,7 +87,9 @@ func (s *sumSE) norm() *sumSE {
 	}
 	sort.Strings(colls)
 	for _, cl := range colls {
-		r.sums = append(r.sums, sumLoopTerm{cl, byColl[cl].norm1()})
+		if b := byColl[cl].norm1(); b.String() != "0" {
+			r.sums = append(r.sums, sumLoopTerm{cl, b})
+		}
 	}
 	// selections on the same condition are one selection of the sums
 	var merged []sumSel
@@ -275,8 +277,9 @@ func layLen(l *Lay) (*sumSE, string) {
 // ---- the value of an integer expression of the code
 
 type sumEval struct {
-	w     *WEval
-	depth int
+	w      *WEval
+	depth  int
+	assume []cellAssume
 }
 
 func (e *sumEval) eval(v ssa.Value) (*sumSE, string) {
@@ -285,6 +288,9 @@ func (e *sumEval) eval(v ssa.Value) (*sumSE, string) {
 	}
 	e.depth++
 	defer func() { e.depth-- }()
+	if s, why, ok := e.cellOfLoad(v); ok {
+		return s, why
+	}
 	switch x := v.(type) {
 	case *ssa.Const:
 		if k, ok := constInt(x); ok {
@@ -560,4 +566,291 @@ func (e *sumEval) iterValue(v ssa.Value, acc *ssa.Phi) (*sumSE, string) {
 		}
 	}
 	return nil, fmt.Sprintf("the loop does not add to the carried value (%s)", e.w.term(v))
+}
+
+// ---- sums kept in a field of a local struct (s.total += ...): the field is read as a variable
+//
+// The value of field f of local al at a program point is the value of the last store before it; at a loop header
+// it is the value on entry plus, per element, what one trip round the loop adds; at a two-way merge a selection.
+
+type cellKey struct {
+	al    *ssa.Alloc
+	field int
+}
+
+type cellAssume struct {
+	key  cellKey
+	head *ssa.BasicBlock
+	atom string
+}
+
+func (e *sumEval) cellAt(k cellKey, b *ssa.BasicBlock, idx int, assume []cellAssume, depth int) (*sumSE, string) {
+	if depth > 60 {
+		return nil, "too deep"
+	}
+	for i := idx - 1; i >= 0; i-- {
+		if st, ok := b.Instrs[i].(*ssa.Store); ok {
+			if fa, ok := st.Addr.(*ssa.FieldAddr); ok && fa.X == ssa.Value(k.al) && fa.Field == k.field {
+				return e.evalAt(st.Val, assume, depth+1)
+			}
+			if st.Addr == ssa.Value(k.al) {
+				// the whole struct was assigned: the zero value at its declaration
+				if c, ok := st.Val.(*ssa.Const); ok && c.Value == nil {
+					return newSE(), ""
+				}
+				return nil, "the struct is assigned as a whole"
+			}
+		}
+		if call, ok := b.Instrs[i].(*ssa.Call); ok {
+			for _, a := range call.Call.Args {
+				if a == ssa.Value(k.al) {
+					return nil, "the struct is handed to a call"
+				}
+			}
+		}
+	}
+	// at the start of the block
+	for _, as := range assume {
+		if as.key == k && as.head == b {
+			return seAtom(as.atom), ""
+		}
+	}
+	if len(b.Preds) == 0 {
+		return newSE(), "" // a fresh local is zero
+	}
+	if isLoopHeader(b) {
+		coll := e.w.rangeTerm(b)
+		if coll == "" {
+			return nil, "a loop that does not range over a collection"
+		}
+		for _, x := range e.w.fn.Blocks {
+			if x != b && loopBodyContains(b, x) {
+				for _, s := range x.Succs {
+					if !loopBodyContains(b, s) {
+						return nil, "the summing loop can stop early"
+					}
+				}
+			}
+		}
+		var init, inc *sumSE
+		type cl struct {
+			p   *ssa.BasicBlock
+			inc *sumSE
+		}
+		var clatches []cl
+		atom := fmt.Sprintf("ACC#%d.%d@b%d", len(assume), k.field, b.Index)
+		for _, p := range b.Preds {
+			if !b.Dominates(p) {
+				x, why := e.cellAt(k, p, len(p.Instrs), assume, depth+1)
+				if x == nil {
+					return nil, why
+				}
+				if init != nil && init.String() != x.String() {
+					return nil, "several initial values"
+				}
+				init = x
+				continue
+			}
+			x, why := e.cellAt(k, p, len(p.Instrs), append(append([]cellAssume{}, assume...), cellAssume{k, b, atom}), depth+1)
+			if x == nil {
+				return nil, why
+			}
+			x = x.norm()
+			d, ok := stripAcc(x, atom)
+			if !ok {
+				return nil, "the loop does not add to the running value"
+			}
+			clatches = append(clatches, cl{p, d})
+		}
+		switch {
+		case len(clatches) == 1:
+			inc = clatches[0].inc
+		case len(clatches) == 2 && clatches[0].inc.norm().String() == clatches[1].inc.norm().String():
+			inc = clatches[0].inc
+		case len(clatches) == 2:
+			d, o := clatches[0], clatches[1]
+			if _, isIf := d.p.Instrs[len(d.p.Instrs)-1].(*ssa.If); !isIf || !d.p.Dominates(o.p) {
+				d, o = o, d
+			}
+			iff, isIf := d.p.Instrs[len(d.p.Instrs)-1].(*ssa.If)
+			if !isIf || !d.p.Dominates(o.p) || d.p == o.p {
+				return nil, "the loop adds different amounts on different ways round"
+			}
+			x, y := d.inc, o.inc
+			if d.p.Succs[0] != b {
+				x, y = y, x
+			}
+			cond, flip := canonAtom(e.w.term(iff.Cond))
+			if flip {
+				x, y = y, x
+			}
+			inc = newSE()
+			inc.sels = []sumSel{{cond, x, y}}
+		default:
+			return nil, "the loop adds different amounts on different ways round"
+		}
+		if init == nil || inc == nil {
+			return nil, "malformed loop"
+		}
+		r := newSE()
+		r.sums = []sumLoopTerm{{coll, inc}}
+		return init.add(r, 1), ""
+	}
+	if len(b.Preds) == 1 {
+		p := b.Preds[0]
+		return e.cellAt(k, p, len(p.Instrs), assume, depth+1)
+	}
+	if len(b.Preds) == 2 {
+		d := b.Idom()
+		iff, ok := d.Instrs[len(d.Instrs)-1].(*ssa.If)
+		if !ok {
+			return nil, "merge not under a branch"
+		}
+		side := func(p *ssa.BasicBlock) int {
+			if p == d {
+				for i, s := range d.Succs {
+					if s == b {
+						return i
+					}
+				}
+				return -1
+			}
+			for i, s := range d.Succs {
+				if s != b && s.Dominates(p) {
+					return i
+				}
+			}
+			return -1
+		}
+		s0, s1 := side(b.Preds[0]), side(b.Preds[1])
+		if s0 < 0 || s1 < 0 || s0 == s1 {
+			return nil, "merge not decided by one branch"
+		}
+		x, why := e.cellAt(k, b.Preds[0], len(b.Preds[0].Instrs), assume, depth+1)
+		if x == nil {
+			return nil, why
+		}
+		y, why := e.cellAt(k, b.Preds[1], len(b.Preds[1].Instrs), assume, depth+1)
+		if y == nil {
+			return nil, why
+		}
+		if x.norm().String() == y.norm().String() {
+			return x, ""
+		}
+		if s0 == 1 {
+			x, y = y, x
+		}
+		cond, flip := canonAtom(e.w.term(iff.Cond))
+		if flip {
+			x, y = y, x
+		}
+		r := newSE()
+		r.sels = []sumSel{{cond, x, y}}
+		return r, ""
+	}
+	return nil, "a merge of more than two ways"
+}
+
+// stripAcc: x = atom + d with atom occurring exactly once outside loops, or a selection of such: d.
+func stripAcc(x *sumSE, atom string) (*sumSE, bool) {
+	if c, ok := x.atoms[atom]; ok && c.Cmp(big.NewInt(1)) == 0 {
+		return x.add(seAtom(atom), -1), true
+	}
+	if len(x.sels) == 1 && len(x.atoms) == 0 && x.c.Sign() == 0 && len(x.sums) == 0 {
+		a, ok1 := stripAcc(x.sels[0].a, atom)
+		b, ok2 := stripAcc(x.sels[0].b, atom)
+		if ok1 && ok2 {
+			r := newSE()
+			r.sels = []sumSel{{x.sels[0].cond, a, b}}
+			return r, true
+		}
+	}
+	// norm() hoists the common part of a selection: atom + sel{c: a | b}
+	if c, ok := x.atoms[atom]; ok && c.Cmp(big.NewInt(1)) == 0 {
+		return x.add(seAtom(atom), -1), true
+	}
+	return nil, false
+}
+
+// evalAt: eval with loads of struct cells resolved under the loop assumptions in force.
+func (e *sumEval) evalAt(v ssa.Value, assume []cellAssume, depth int) (*sumSE, string) {
+	saved := e.assume
+	e.assume = assume
+	defer func() { e.assume = saved }()
+	return e.eval(v)
+}
+
+// cellOfLoad: v is a read of a field of a local struct (directly, or of a struct a module function built and
+// returned): its value as a sum expression.
+func (e *sumEval) cellOfLoad(v ssa.Value) (*sumSE, string, bool) {
+	switch x := v.(type) {
+	case *ssa.UnOp:
+		if x.Op != token.MUL {
+			return nil, "", false
+		}
+		fa, ok := x.X.(*ssa.FieldAddr)
+		if !ok {
+			return nil, "", false
+		}
+		al, ok := fa.X.(*ssa.Alloc)
+		if !ok || !isIntType(x.Type()) {
+			return nil, "", false
+		}
+		// a copy of a struct returned by a helper
+		if al.Referrers() != nil {
+			for _, r := range *al.Referrers() {
+				if st, ok := r.(*ssa.Store); ok && st.Addr == ssa.Value(al) {
+					if call, ok := st.Val.(*ssa.Call); ok {
+						s, why := e.fieldOfCall(call, fa.Field)
+						return s, why, true
+					}
+				}
+			}
+		}
+		idx := 0
+		for i, ins := range x.Block().Instrs {
+			if ins == ssa.Instruction(x) {
+				idx = i
+			}
+		}
+		s, why := e.cellAt(cellKey{al, fa.Field}, x.Block(), idx, e.assume, e.depth)
+		return s, why, true
+	case *ssa.Field:
+		if call, ok := x.X.(*ssa.Call); ok && isIntType(x.Type()) {
+			s, why := e.fieldOfCall(call, x.Field)
+			return s, why, true
+		}
+	}
+	return nil, "", false
+}
+
+func (e *sumEval) fieldOfCall(call *ssa.Call, field int) (*sumSE, string) {
+	sc := call.Call.StaticCallee()
+	if sc == nil || !inScope(pkgPathOf(sc)) || len(sc.Blocks) == 0 {
+		return nil, "a struct returned by a function outside the module"
+	}
+	r := singleResult(sc, 0)
+	ld, ok := r.(*ssa.UnOp)
+	if !ok || ld.Op != token.MUL {
+		return nil, "helper " + funcName(sc) + " does not return a local struct"
+	}
+	al, ok := ld.X.(*ssa.Alloc)
+	if !ok {
+		return nil, "helper " + funcName(sc) + " does not return a local struct"
+	}
+	sub := newWEval(e.w.P, sc)
+	sub.depth = e.w.depth + 1
+	for i, p := range sc.Params {
+		if i < len(call.Call.Args) {
+			sub.args[p] = e.w.term(call.Call.Args[i])
+		}
+	}
+	se := &sumEval{w: sub, depth: e.depth}
+	idx := 0
+	for i, ins := range ld.Block().Instrs {
+		if ins == ssa.Instruction(ld) {
+			idx = i
+		}
+	}
+	return se.cellAt(cellKey{al, field}, ld.Block(), idx, nil, 0)
 }
